@@ -371,8 +371,8 @@ func expandSchemaRef(target Schema, parentRefs []string, resolver *schemaLoader,
 		return nil, err
 	}
 
-	if t == nil {
-		// guard for when continuing on error
+	if t == nil || err != nil {
+		// guard for when continuing on error: the unresolved $ref stays as it is
 		return &target, nil
 	}
 
